@@ -54,6 +54,25 @@ PROPS = {
         assumptions=COMMON_ASSUME,
         legs=[leg("unchanged", "c17-unchanged", "rel", quick=4, thorough=16)],
     ),
+    "C07": dict(
+        level="exploration",
+        technique="runtime monitor: CRDT values grown through the real replica APIs, then idempotence / commutativity / associativity of merge checked exhaustively over each pool on an observable projection",
+        level_text="Values are grown, never fabricated: 2-4 ShardReplicaStates (record_write/delete/hash_write/hash_delete, deltas exchanged in arbitrary order with duplicates), 2-4 replicas owning one ReplicatedValue of any CRDT kind (with_crdt, crdt_mut, set, hash_set, delete, expiry, rf, ORSet remove/apply_remove, type changes), single-kind histories for every inner lattice (LwwRegister, per-field hash, GCounter, PNCounter, GSet, ORSet) and bare VectorClocks. Every snapshot seen joins the history's pool (deduplicated on the projection, <= 24/32 values); over each pool every value is checked for merge(a,a)=a, every unordered pair for merge(a,b)=merge(b,a) and every ordered triple for associativity, comparing the projection pi = kind, live value or tombstone, hash fields with per-field stamps, counter totals and entries, set members and tags, next tag, client accessors, expiry, vector clock, rf, outer stamp (time, replica) and the digest's value hash. Failing histories are shrunk.",
+        level_note="'all values replicas can produce' is approximated by reachability from histories of 6-28 operations on <= 4 replicas; the laws are exhaustive only within each pool; an LwwRegister pair with identical stamp and different content is unreachable (counter reported, 0) so a '>=' for '>' mutation there is an equivalent mutant",
+        rule="case = one instance of one law on pool values (one value for idempotence, one unordered pair for commutativity, one ordered triple for associativity); distinct_nontrivial = distinct classes of non-trivial pairs/triples: (site, kinds of the operands, outer-stamp order class per operand pair, tombstone pattern, lattice relation per operand pair)",
+        exhaustive_note="exhaustive over all values / pairs / triples of each explored pool only",
+        assumptions=COMMON_ASSUME,
+        legs=[leg("laws", "c07-laws", "rel", quick=2, thorough=16)],
+    ),
+    "C20": dict(
+        level="exploration",
+        technique="runtime monitor: every built-in simulation/DST harness run twice in-process and in three fresh child processes per (harness, preset, seed); canonical dumps (operation trace, result, final state with maps in key order) compared byte for byte",
+        level_text="For every publicly reachable harness and preset (ExecutorDSTHarness, List/Set/Hash/SortedSet/Transaction DST, GCounter/PNCounter/ORSet/VectorClock DST, MultiNodeSimulation broadcast and partitioned, run_partition_test topologies, DSTSimulation, RedisDSTSimulation, Simulation event queue, SimulationHarness/ScenarioBuilder, SimulatedConnection, PipelineSimulator, StreamingDSTHarness, CompactionDSTHarness, WalDSTHarness, buggify) and 16 (quick) / 400 (thorough) seeds, the harness is stepped so that its per-step last_op yields a full operation log, and a canonical dump of trace + result + final state is produced twice on a fresh thread and once in each of three fresh processes (fresh std RandomState and ahash keys, fresh allocator state; the probes are counted); any byte difference is a violation.",
+        level_note="harnesses that expose only a result struct (WalDSTHarness, run_partition_test, PipelineSimulator) are compared on that alone; SimulatedRuntime/SimulatedNetwork are not reachable through public API; signatures are per harness, so a second root cause inside a harness that already diverges shows only in the divergent:* counters; a hash-order divergence is probabilistic per pair of runs (replay re-runs 6+10 times)",
+        rule="case = one (harness, preset, seed, ops) compared across 2 in-process runs and 3 child processes; distinct_nontrivial = distinct (harness, preset, seed) triples whose dump has a non-empty trace",
+        assumptions=COMMON_ASSUME + ["cross-process runs rely on per-process hash seeds differing: the run counts distinct RandomState/ahash probe values and reports them"],
+        legs=[leg("repro", "c20-repro", "rel", quick=2, thorough=16)],
+    ),
     "C15": dict(
         level="exploration",
         technique="runtime monitor: bounded-exhaustive + random inputs against both decoders under catch_unwind, a counting allocator and an independent strict RESP decoder; fragment-vs-whole replay; replies of real commands re-decoded; child-process abort detection",
